@@ -807,3 +807,36 @@ Proof.
   - apply stackm_preconditions_agree in Had; [|exact HN].
     rewrite (stackm_refines_stack N w sw drop HN ins Had). apply H. apply admissible_adm. split; assumption.
 Qed.
+
+(** ** the tie to the emitted VHDL, for every configuration at once: whenever the per-configuration check
+    of harness/c14.py against the ABSTRACT machine succeeds for a parsed design [d] (its two computed
+    hypotheses are exactly what every generated case file establishes), the design also has the trace of
+    the AS-CODED model of that size on every input sequence admissible for the model *)
+From Cohdl Require Import Vhdl.Syntax Vhdl.Sem Vhdl.DefAssign Vhdl.DeadVars Equiv.VhdlTS Equiv.StoreTS.
+
+Theorem ring_code_tie : forall d mid alphabet fuel (N : nat) (w : BinNums.N), (2 <= N)%nat ->
+  conc_all_ok (auto_Ts d) d = true ->
+  is_ok (rcheck_s d mid (queue_step N w) alphabet (queue_assume N) fuel [0]) = true ->
+  forall ins, admissible (ring_step N w) alphabet (ring_assume N) (ring_init N) ins ->
+    traceA (sstep d mid) (power_up_s d) ins = traceB (ring_step N w) (ring_init N) ins.
+Proof.
+  intros d mid alphabet fuel N w HN Hd Hc.
+  apply (proj2 (ring_case_transfer N w HN alphabet (traceA (sstep d mid) (power_up_s d)))).
+  exact (rcheck_s_sound d mid _ alphabet _ fuel _ Hd Hc).
+Qed.
+
+Theorem stackm_code_tie : forall d mid alphabet fuel (N : nat) (w sw : BinNums.N) (drop_old : bool), (1 <= N)%nat ->
+  conc_all_ok (auto_Ts d) d = true ->
+  is_ok (rcheck_s d mid (stack_step N w sw drop_old) alphabet (stack_assume N drop_old) fuel [0]) = true ->
+  forall ins, admissible (stackm_step N w sw drop_old) alphabet (stackm_assume N drop_old) (stackm_init N) ins ->
+    traceA (sstep d mid) (power_up_s d) ins = traceB (stackm_step N w sw drop_old) (stackm_init N) ins.
+Proof.
+  intros d mid alphabet fuel N w sw drop HN Hd Hc.
+  apply (proj2 (stackm_case_transfer N w sw drop HN alphabet (traceA (sstep d mid) (power_up_s d)))).
+  exact (rcheck_s_sound d mid _ alphabet _ fuel _ Hd Hc).
+Qed.
+
+(** [Fifo._next_index], every N >= 2 (power of two or not) *)
+Theorem fifo_next_index_mod : forall (N : nat) (i : Z), (2 <= N)%nat -> 0 <= i < Z.of_nat N ->
+  fifo_next N i = (i + 1) mod Z.of_nat N.
+Proof. intros N i HN Hi. apply fifo_next_spec; assumption. Qed.
